@@ -232,6 +232,31 @@ def run_isolating(exe, lines):
     return outs
 
 
+def build_and_run_robust(cases, inputs, wd, prop, run):
+    """build_and_run with fallbacks for C01 / C03 (C02 keeps the strict form: its instrument IS the exact-shape walker):
+    1. without the tree walker; 2. without the grammars rustc names in its complaint (their inputs come back "UNRUN").
+    Whether every emitted module compiles is C05's question, whether the types have the declared shape C06's."""
+    import re
+    o, err = build_and_run(cases, inputs, wd)
+    if o is not None or prop == "C02":
+        return o, err
+    log("  (the exact-shape walker does not compile against the emitted types - C02/C06 territory; running without it)")
+    alive = list(range(len(cases)))
+    for attempt in range(5):
+        idx = {k: n for n, k in enumerate(alive)}
+        o, err = build_and_run([cases[k] for k in alive], [(idx[g], t) for g, t in inputs if g in idx], "%s_f%d" % (wd, attempt), walk=False)
+        if o is not None:
+            it = iter(o)
+            return [next(it) if g in idx else "UNRUN" for g, _ in inputs], None
+        bad = sorted({alive[int(x)] for x in re.findall(r"\bg(\d+)(?:\.rs|::)", err) if int(x) < len(alive)})
+        if not bad:
+            break
+        log("  (%d emitted module(s) do not compile even with the minimal glue - C05/C06 territory; left out)" % len(bad))
+        run.notes["grammars_left_out_because_rustc_rejects_them"] = run.notes.get("grammars_left_out_because_rustc_rejects_them", 0) + len(bad)
+        alive = [k for k in alive if k not in bad]
+    return None, err
+
+
 def select_grammars(tier, seed, wd, run):
     """Classics + a seeded sample of the universe(s) + random larger grammars; only those the real generate accepts."""
     rng = random.Random(seed * 7919 + 3)
@@ -390,11 +415,7 @@ def check(prop, tier, seed):
     for lo in range(0, len(cases), batch):
         sub = cases[lo:lo + batch]
         sub_inputs = [(g - lo, toks) for g, toks in inputs if lo <= g < lo + batch]
-        o, err = build_and_run(sub, sub_inputs, os.path.join(wd, "crate_%d" % lo))
-        if o is None and prop != "C02":
-            # the exact-shape walker is C02's instrument; without it acceptance and error reporting can still be observed
-            log("  (the exact-shape walker does not compile against the emitted types - C02/C06 territory; running without it)")
-            o, err = build_and_run(sub, sub_inputs, os.path.join(wd, "crate_%d" % lo), walk=False)
+        o, err = build_and_run_robust(sub, sub_inputs, os.path.join(wd, "crate_%d" % lo), prop, run)
         if o is None:
             if err.startswith("HANG"):
                 run.violation({"kind": "hang", "why": "C01: " + err, "batch": lo})
@@ -573,9 +594,7 @@ def longer_inputs(prop, tier, seed, run, wd):
             ids = [rng.randrange(1, 1000000) for _ in w]
             inputs.append((k, [(c["pres"]["ts"].index(x), i) for x, i in zip(w, ids)]))
             meta.append((k, w, ids))
-    outs, err = build_and_run(ok, inputs, os.path.join(wd, "crate_long"))
-    if outs is None and prop != "C02":
-        outs, err = build_and_run(ok, inputs, os.path.join(wd, "crate_long"), walk=False)
+    outs, err = build_and_run_robust(ok, inputs, os.path.join(wd, "crate_long"), prop, run)
     if outs is None:
         if err.startswith("HANG"):
             run.violation({"kind": "hang", "why": "C01: " + err})
